@@ -1158,11 +1158,13 @@ func run(c *core.Ctx) {
 	})
 	parallel(4, func(w int) {
 		r := core.RNG(fmt.Sprintf("c11/churn/%d", w))
-		for i := 0; i < c.Q(3, 30); i++ {
-			churnRun(res, r, (w+i)%3, []int{500, 3000, 12000}[i%3], "")
+		for i := 0; i < c.Q(2, 30); i++ {
+			t0 := time.Now()
+			churnRun(res, r, (w+i)%3, []int{500, 4000, 12000}[i%3], "")
+			res.Count("churn_ms_total", time.Since(t0).Milliseconds())
 		}
 	})
-	res.Require(res.Counter("churn_runs") >= 6 || res.ViolationCount() > 0, "too few concurrent churn runs completed")
+	res.Require(res.Counter("churn_runs") >= 5 || res.ViolationCount() > 0, "too few concurrent churn runs completed")
 	res.Assume("paths are the forms the system produces: peer routes with an empty or 2-hop path, gossip routes with >= 3-hop simple paths")
 	res.Assume("the per-prefix bound allows 3 more gossip routes per direct-peer destination in that prefix (peers enter without the admission test; see DESIGN.md C11)")
 	res.Assume("ageing is simulated by moving expiries (hook VerifAgeEntries) by >= 30 min; no oracle depends on sub-minute timing")
